@@ -19,6 +19,7 @@ import pandas as pd
 import typing_inspect
 
 from pandera import dtypes, errors
+from pandera.config import get_config_context
 from pandera.engines import numpy_engine, pandas_engine
 
 Bool = dtypes.Bool  #: ``"bool"`` numpy dtype
@@ -178,6 +179,9 @@ class DataFrameBase(Generic[T]):
                 or pandera_accessor.schema != schema_model.to_schema()
             ):
                 self.__dict__ = schema_model.validate(self).__dict__
+                if not get_config_context().validation_enabled:
+                    # nothing was validated: the object must not look validated
+                    return
                 if pandera_accessor is None:
                     pandera_accessor = getattr(self, "pandera")
                 pandera_accessor.add_schema(schema_model.to_schema())
